@@ -22,7 +22,8 @@ META = {
             "continuation completes and at quiescence sender window + receiver's unacknowledged consumed bytes (<= W//10) == W exactly. "
             "[live] channels opened through open_session()/accept() with a per-channel window / packet size other than "
             "the transport defaults: a transfer of several windows (one sender + reader, two senders + two readers) "
-            "completes on every schedule within delay bound 0/1. Reader-side half-close (its own EOF) is an event of the BFS. "
+            "completes on every schedule within delay bound 0/1; uploads of three server windows between transports whose "
+            "default windows differ (2 MiB / 32 KiB either way). Reader-side half-close (its own EOF) is an event of the BFS. "
             "Premise check [counter seams]: the BFS steps at whole operations; the threads that touch a credit counter "
             "(two readers, WINDOW_ADJUST dispatch vs senders, arriving data vs reader) are additionally raced at "
             "source-line granularity (<=1/2 preemptions, every line of channel.py a scheduling point) and the same "
@@ -248,6 +249,79 @@ def run_live(item, acc):
         acc.note("wall cap: live cap 1500 hit for %r" % (scn,))
 
 
+def make_upload_body(uscn):
+    """The other direction and asymmetric defaults: the client uploads several server windows to a server whose
+    default window (sw) differs from the client's (cw); the server application keeps reading."""
+    cw, sw, total = uscn
+
+    def body(s):
+        import socket
+        from vmc import fixtures as F, vthreading
+        p = F.Pair(client_kw={"default_window_size": cw}, server_kw={"default_window_size": sw}).up()
+        c = p.tc.open_session()
+        sv = p.ts.accept(5)
+        s.quiesce()
+        got = [0]
+        res = {}
+
+        def up():
+            try:
+                c.sendall(b"u" * total)
+                res["send"] = "ok"
+            except Exception as e:  # noqa
+                res["send"] = repr(e)
+
+        def down():
+            sv.settimeout(0.5)
+            idle = 0
+            while got[0] < total and idle < 4:
+                try:
+                    d = sv.recv(1 << 16)
+                    if not d:
+                        break
+                    got[0] += len(d)
+                    idle = 0
+                except socket.timeout:
+                    idle += 1
+        ths = [vthreading.Thread(target=up), vthreading.Thread(target=down)]
+        s.branching = True
+        for t in ths:
+            t.start()
+        ths[1].join()
+        s.branching = False
+        blocked = ths[0].is_alive()
+        p.close()
+        s.quiesce()
+        ths[0].join()
+        return got[0], total, blocked, res
+    return body
+
+
+def run_upload(item, acc):
+    from vmc import explore, sched as S
+    tier, uscn, bound = item
+
+    def on_exec(ex):
+        acc.ev()
+        acc.validated += 1
+        acc.transitions += len(ex.points) + 1
+        if ex.outcome != "ok":
+            acc.violation("upload:harness-outcome:%s:%s" % (ex.outcome, type(ex.error).__name__),
+                          {"scn": uscn, "err": repr(ex.error)[:300]}, {"upload": uscn, "choices": ex.choices})
+            return
+        got, total, blocked, res = ex.value
+        acc.nt(("upload", uscn, got, blocked))
+        if got != total or blocked:
+            acc.violation("sender-stalls-although-reader-keeps-reading:upload-to-server-with-other-default-window",
+                          {"scn": {"client_window": uscn[0], "server_window": uscn[1], "bytes": uscn[2]},
+                           "received": got, "sender_still_blocked": blocked, "choices": ex.choices},
+                          {"upload": uscn, "choices": ex.choices})
+    res = explore.explore(make_upload_body(uscn), bound, "delay", cap=1500, on_exec=on_exec,
+                          sched_kw={"horizon": S.EPOCH + 120})
+    acc.states += 1
+    acc.count("upload_schedules", res.executions)
+
+
 def run_seam(item, acc):
     """The BFS merges states on the credit counters and steps at whole operations, which is sound as long as
     every access to the counters is under the channel lock.  That premise is explored here: the threads that
@@ -325,6 +399,8 @@ def main(tier):
         live.append((tier, (W, P, (("send", 3 * W + 1),), (W // 10 + 1,)), lb))
         live.append((tier, (W, P, (("send", W + 1), ("send_err", W + 1)), ("2R", 1000, W)), lb))
     ck.merge(core.pmap(live, run_live))
+    ups = [(tier, (cw, sw, 3 * sw + 1), lb) for (cw, sw) in ((2097152, 32768), (32768, 2097152), (65536, 65536))]
+    ck.merge(core.pmap(ups, run_upload))
     from props import c19
     sb = 1 if tier == "quick" else 2
     seams = []
@@ -344,6 +420,11 @@ def main(tier):
 
 def replay(rec):
     r = rec["replay"]
+    if "upload" in r:
+        from vmc import explore, sched as S
+        ex = explore.replay(make_upload_body(tuple(r["upload"])), r["choices"], "delay", {"horizon": S.EPOCH + 120})
+        print(ex.outcome, ex.error, ex.value)
+        return 1 if (ex.outcome != "ok" or ex.value[0] != ex.value[1] or ex.value[2]) else 0
     if "live" in r:
         from props import c19
         from vmc import explore, sched as S
